@@ -15,7 +15,8 @@ fn open_out(job: &Value, profile: &str) -> Out {
           vocab_for_events: if job["parser_events"].as_bool().unwrap_or(false) {
               call::RECORD_EVENTS.store(true, std::sync::atomic::Ordering::Relaxed);
               job["vocab"].as_str().map(vocab::Vocab::load)
-          } else { None } }
+          } else { None },
+          cur_file: if matches!(job["mode"].as_str(), Some("loops") | Some("agg") | Some("fnpairs") | Some("nearmiss")) { job["hb"].as_str().map(|h| format!("{}.input", h)) } else { None } }
 }
 
 fn write_stats(job: &Value, out: &mut Out, done: bool) {
@@ -398,6 +399,14 @@ fn main() {
             "selftest" => run_selftest(&job),
             "agg" => run_agg(&job),
             "cross" => run_cross(&job),
+            "nearmiss" => {
+                let v = vocab::Vocab::load(job["vocab"].as_str().unwrap());
+                let mut out = open_out(&job, profile_name());
+                let mut rng = Rng(job["seed"].as_u64().unwrap_or(1).wrapping_mul(0x9E3779B97F4A7C15) ^ 0x5EED);
+                functions::near_miss_names(&mut out, &v, job["e"].as_str().unwrap(), &mut rng, job["n"].as_u64().unwrap_or(500) as usize);
+                out.heartbeat(u64::MAX);
+                write_stats(&job, &mut out, true);
+            }
             "fnpairs" => {
                 let v = vocab::Vocab::load(job["vocab"].as_str().unwrap());
                 let mut out = open_out(&job, profile_name());
